@@ -19,7 +19,7 @@ class C01(PureCheck):
     warm_every = 2
     rule = ("every attribute record (9 fg x 9 bg x {absent,False,True}^6; quick: all 5,184 records without "
             "explicit False + sampled False variants) built through fmtstr(text, **kwargs) with 7 texts "
-            "(empty, ASCII, controls, wide+combining, a combining mark / ZWJ alone in its run), one run of 4095 / 4096 / 5000 / 65537 characters, empty runs between visible runs carrying either neighbour's or other attributes, sums sharing an already rendered left operand, every subset of the styles switched on with the int 1 instead of True, runs of blanks only under every single attribute and fg + each other attribute, every C0 (without ESC) / DEL / C1 (without CSI) control character first, last and alone in a run, plus values that come out of the parser (FmtStr.from_str / fmtstr on every string of <=3 items over text and SGR / cursor-home sequences, closed or left open), plus multi-run values built with + (empty runs "
+            "(empty, ASCII, controls, wide+combining, a combining mark / ZWJ alone in its run), one run of 4095 / 4096 / 5000 / 65537 characters, texts that Unicode normalisation would rewrite, empty runs between visible runs carrying either neighbour's or other attributes, sums sharing an already rendered left operand, every subset of the styles switched on with the int 1 instead of True, runs of blanks only under every single attribute and fg + each other attribute, every C0 (without ESC) / DEL / C1 (without CSI) control character first, last and alone in a run, plus values that come out of the parser (FmtStr.from_str / fmtstr on every string of <=3 items over text and SGR / cursor-home sequences, closed or left open), plus multi-run values built with + (empty runs "
             "included); str(f) is lexed and the token list validated by TLC (Sgr.tla stream terminal). "
             "distinct_nontrivial = distinct (attribute records of all runs, text lengths) with at least one "
             "rendered attribute")
@@ -96,6 +96,12 @@ class C01(PureCheck):
             for text in ([c, 97], [97, c], [c]):
                 yield {"runs": [[list(text), a]]}
                 yield {"runs": [[[120], a], [list(text), [0] * 8], [[121], [0, 2, 0, 0, 2, 0, 0, 0]]]}
+        # texts that Unicode normalisation would rewrite (base + combining mark with a precomposed form, singletons,
+        # conjoining jamo, marks in non-canonical order, compatibility forms) under plain, one and several attributes
+        for t in ("e\u0300", "a\u0300b", "\u212b", "\u2126x", "\u212a", "\u1112\u1161\u11ab", "q\u0323\u0307", "q\u0307\u0323", "\ufb01", "\uf900", "\u00e8", "\u1e9b\u0323"):
+            for a in ([0] * 8, [2, 0, 0, 0, 0, 0, 0, 0], [0, 5, 2, 0, 0, 2, 0, 0], [3, 0, 1, 0, 0, 0, 0, 0]):
+                yield {"runs": [[enc.enc_text(t), list(a)]]}
+                yield {"runs": [[[120], [0, 0, 2, 0, 0, 0, 0, 0]], [enc.enc_text(t), list(a)], [[121], [4, 0, 0, 0, 0, 0, 0, 0]]]}
         # empty runs between visible runs, carrying the attributes of the run before them, of the run after them, or others
         pool = [[0] * 8, [2, 0, 0, 0, 0, 0, 0, 0], [5, 0, 0, 0, 0, 0, 0, 0], [0, 3, 0, 0, 0, 0, 0, 0], [0, 0, 2, 0, 0, 0, 0, 0], [2, 0, 2, 0, 0, 0, 0, 0],
                 [0, 0, 1, 0, 0, 0, 0, 0], [2, 4, 0, 0, 0, 2, 0, 0]]
